@@ -380,4 +380,4 @@ def r6(ctx):
 @rule("C08", "R7", "ORDER", "exhausting the donor pool raises RuntimeError naming the shortage")
 def r7(ctx):
     from . import c20
-    c20.r4(ctx)
+    ctx.sub(c20.r4)
